@@ -122,8 +122,10 @@ impl Method for PhoneticMethod {
     }
 
     fn candidate_committed(&mut self, index: usize, config: &Config) {
-        // Check if user has selected a different suggestion
-        if self.prev_selection != index && config.get_phonetic_suggestion() {
+        // Check if user has selected a different suggestion.
+        // There is nothing to learn from a commit when no word is being composed
+        // (the candidate list may be gone by then, e.g. after the engine was updated).
+        if self.prev_selection != index && config.get_phonetic_suggestion() && !self.buffer.is_empty() {
             let suggestion = self.suggestion.get_bare_suggestion(index).to_string();
             self.selections.insert(
                 SplittedString::split(&self.buffer, false)
